@@ -259,6 +259,9 @@ class Executor:
         k = len(self.trace)
         if k < len(self.prefix):
             ch = self.prefix[k][0]
+            if self.prefix[k][1] != n or len(self.prefix[k]) != 3:
+                # the re-execution took a different turn than the recorded run: never silently continue
+                raise BoundExceeded('non-deterministic replay at decision %d (%s)' % (k, tag))
             self.trace.append([ch, n, tag])
             return ch
         rnd = self.env.get('random')
@@ -273,6 +276,8 @@ class Executor:
             return cond
         k = len(self.trace)
         if k < len(self.prefix):
+            if len(self.prefix[k]) != 4:
+                raise BoundExceeded('non-deterministic replay at decision %d (%s)' % (k, tag))
             ch, n, opts = self.prefix[k][0], self.prefix[k][1], self.prefix[k][3]
             self.trace.append([ch, n, tag, opts])
             val = opts[ch]
